@@ -1,6 +1,7 @@
 /* C15 (+ blackbox part of C11): blackbox dump files — faithful round trip, and no crash on damaged files */
 #include "vp.h"
 #include <qb/qblog.h>
+#include <qb/qbrb.h>
 #include <qb/qbdefs.h>
 #include <errno.h>
 #include <stdio.h>
@@ -41,11 +42,12 @@ int __wrap_putchar(int c);
 int __wrap_putchar(int c) { if (!capturing) return fputc(c, stdout); return __wrap_printf("%c", c); }
 
 /* ---- records ---- */
-struct rec { int prio; uint32_t line, tags; long sec, nsec; char fn[72]; char msg[600]; };
+struct rec { int prio; uint32_t line, tags; long sec, nsec; char fn[72]; char msg[2100]; };
 static struct rec LOGGED[64]; static int nlogged;
 static const char *prio_names[] = { "emerg", "alert", "crit", "error", "warning", "notice", "info", "debug", "trace" };
 static char dir[128], dumpf[160], dmgf[160];
 
+static int bb_line_len;      /* > 0: the blackbox target is configured for longer lines than the default */
 static void bb_start(int size)
 {
 	int r;
@@ -54,6 +56,7 @@ static void bb_start(int size)
 	r = qb_log_ctl(QB_LOG_BLACKBOX, QB_LOG_CONF_SIZE, size);
 	if (r) vp_broken("blackbox size refused: %d", r);
 	qb_log_filter_ctl(QB_LOG_BLACKBOX, QB_LOG_FILTER_ADD, QB_LOG_FILTER_FILE, "bb.c", LOG_TRACE);   /* not libqb's own trace messages */
+	if (bb_line_len) { r = qb_log_ctl(QB_LOG_BLACKBOX, QB_LOG_CONF_MAX_LINE_LEN, bb_line_len); if (r) vp_broken("blackbox line length refused: %d", r); }
 	r = qb_log_ctl(QB_LOG_BLACKBOX, QB_LOG_CONF_ENABLED, QB_TRUE);
 	if (r) vp_broken("blackbox enable failed: %d", r);
 	nlogged = 0;
@@ -66,7 +69,7 @@ static void bb_log(int kind)
 	int n = nlogged;
 	clk_sec += 61; clk_nsec = (long)(n + 1) * 7000000;
 	r->sec = clk_sec; r->nsec = clk_nsec;
-	r->prio = LOG_ERR + kind; r->line = 500 + (uint32_t)kind; r->tags = 3 * (uint32_t)(kind + 1);   /* priority and tags belong to the call site */
+	r->prio = LOG_ERR + (kind > 4 ? kind - 4 : kind); r->line = 500 + (uint32_t)kind; r->tags = 3 * (uint32_t)(kind + 1);   /* priority and tags belong to the call site */
 	snprintf(r->fn, sizeof r->fn, "func_%d", kind);
 	switch (kind) {
 	case 0:
@@ -89,6 +92,14 @@ static void bb_log(int kind)
 		snprintf(r->msg, sizeof r->msg, "r%d %s", n, big);
 		qb_log_from_external_source(r->fn, "bb.c", "r%d %s", (uint8_t)r->prio, r->line, r->tags, n, big);
 		break;
+	case 5: case 6: {
+		/* longer than the default line length, inside the configured one (long-lines mode only) */
+		static char huge[2000];
+		size_t l = kind == 5 ? 1500 : 700;
+		memset(huge, 'M', l); huge[l] = 0;
+		snprintf(r->msg, sizeof r->msg, "r%d %s", n, huge);
+		qb_log_from_external_source(r->fn, "bb.c", "r%d %s", (uint8_t)r->prio, r->line, r->tags, n, huge);
+		break; }
 	default:
 		/* over-long: the blackbox stores a replacement text */
 		memset(big, 'L', 599); big[599] = 0;
@@ -145,6 +156,50 @@ static void check_round_trip(const char *why)
 		if (strcmp(P[i].msg, r->msg)) vp_fail("%s: record #%d printed as '%.60s', logged as '%.60s'", why, first + i, P[i].msg, r->msg);
 	}
 	vp_outcome_u64((uint64_t)nprinted);
+}
+
+/* long-lines mode: the printer is built for the default line length, so the dump is loaded and walked by hand
+   (the same calls and the same record layout the printer uses) */
+static void check_ring_dump(const char *why)
+{
+	static char chunk[8192 + 64], text[4096];
+	unsigned char hdr[20];
+	qb_ringbuffer_t *rb;
+	int fd = open(dumpf, O_RDONLY), n = 0, first, i;
+	ssize_t r;
+	static struct { int prio; uint32_t line, tags; char fn[80]; char msg[2100]; } Q[64];
+	if (fd < 0 || read(fd, hdr, sizeof hdr) != (ssize_t)sizeof hdr) vp_fail("%s: the dump file cannot be read", why);
+	rb = qb_rb_create_from_file(fd, 0);
+	close(fd);
+	if (!rb) vp_fail("%s: the dump cannot be loaded as a ring buffer", why);
+	while ((r = qb_rb_chunk_read(rb, chunk, 8192, 0)) > 0) {
+		char *p = chunk; uint32_t fn_size, msg_len; uint8_t prio;
+		if (n >= 64) break;
+		if (r < 4 * 4 + 1 + 16) vp_fail("%s: record of %zd bytes in the dump", why, r);
+		memset(chunk + r, 0, 64);
+		memcpy(&Q[n].line, p, 4); p += 4; memcpy(&Q[n].tags, p, 4); p += 4; memcpy(&prio, p, 1); p += 1; Q[n].prio = prio;
+		memcpy(&fn_size, p, 4); p += 4;
+		if (fn_size == 0 || fn_size > 79 || (ssize_t)fn_size + 33 > r) vp_fail("%s: record %d in the dump has function-name size %u", why, n, fn_size);
+		memcpy(Q[n].fn, p, fn_size); Q[n].fn[fn_size] = 0; p += fn_size;
+		p += sizeof(struct timespec);
+		memcpy(&msg_len, p, 4); p += 4;
+		if (msg_len == 0 || (ssize_t)msg_len > r) vp_fail("%s: record %d in the dump has message size %u (record %zd bytes)", why, n, msg_len, r);
+		qb_vsnprintf_deserialize(text, sizeof text, p);
+		snprintf(Q[n].msg, sizeof Q[n].msg, "%s", text);
+		n++;
+	}
+	qb_rb_close(rb);
+	if (nlogged && n < 1) vp_fail("%s: %d records logged, the dump holds none that can be read (last read: %zd)", why, nlogged, r);
+	if (n > nlogged) vp_fail("%s: the dump holds %d records, only %d were logged", why, n, nlogged);
+	first = nlogged - n;
+	for (i = 0; i < n; i++) {
+		struct rec *e = &LOGGED[first + i];
+		if (Q[i].prio != e->prio || strcmp(Q[i].fn, e->fn) || Q[i].line != e->line || Q[i].tags != e->tags)
+			vp_fail("%s: record %d of %d in the dump is '%d %s(%u):%u', logged record #%d was '%d %s(%u):%u' (the dump must be an unbroken run ending with the last record)",
+				why, i, n, Q[i].prio, Q[i].fn, Q[i].line, Q[i].tags, first + i, e->prio, e->fn, e->line, e->tags);
+		if (strcmp(Q[i].msg, e->msg)) vp_fail("%s: record #%d reads '%.40s...' (%zu chars), logged '%.40s...' (%zu chars)", why, first + i, Q[i].msg, strlen(Q[i].msg), e->msg, strlen(e->msg));
+	}
+	vp_outcome_u64((uint64_t)n + 1000);
 }
 
 static unsigned char *base[4]; static size_t base_len[4]; static int nbase;
@@ -321,7 +376,28 @@ static void run_roundtrip(void)
 	qb_log_fini();
 }
 
-static void run(void) { capturing = 1; if (mode == 0) run_damage(); else run_roundtrip(); capturing = 0; }
+static void run_longlines(void)
+{
+	static const int sizes[] = { 4096, 8192 };
+	static const int kinds[] = { 0, 5, 6 };
+	int size = sizes[vp_choose(2, "blackbox size")], step;
+	bb_line_len = 2048;
+	bb_start(size);
+	bb_line_len = 0;
+	vp_log("blackbox of %d bytes, line length 2048", size);
+	{ int i, n = vp_choose(2, "records logged before") * 6; for (i = 0; i < n; i++) bb_log(6); }
+	for (step = 0; step < depth; step++) {
+		int kind = kinds[vp_choose(3, "record kind")];
+		bb_log(kind);
+		vp_log("log record #%d kind %d (%zu chars)", nlogged - 1, kind, strlen(LOGGED[nlogged - 1].msg));
+		unlink(dumpf);
+		if (qb_log_blackbox_write_to_file(dumpf) < 0) vp_fail("qb_log_blackbox_write_to_file failed after record %d", nlogged);
+		check_ring_dump("dump after a record");
+	}
+	qb_log_fini();
+}
+
+static void run(void) { capturing = 1; if (mode == 0) run_damage(); else if (mode == 2) run_longlines(); else run_roundtrip(); capturing = 0; }
 
 static void init(void)
 {
@@ -339,7 +415,7 @@ int main(int argc, char **argv)
 		.property = "C15", .name = "c15_bb_dump", .level = "exploration",
 #endif
 		.run = run, .init = init, .setup = setup, .batch = 100, .private_shm = 1, .timeout_s = 30,
-		.rule = "round_trip=1: every sequence of <= records log calls (short, mixed conversions, 400-character, 480-character from a function with a 60-character name, over-long) into blackboxes of "
+		.rule = "round_trip=2: the blackbox configured for 2048-character lines, every sequence of short / 700 / 1500-character records, the dump loaded with qb_rb_create_from_file and walked record by record after every log call (the printer only handles the default line length); round_trip=1: every sequence of <= records log calls (short, mixed conversions, 400-character, 480-character from a function with a 60-character name, over-long) into blackboxes of "
 			"1024/2048/4096 bytes; after EVERY record the blackbox is written to a file, printed with qb_log_blackbox_print_from_file and "
 			"the captured output parsed and compared field by field (priority, function, line, tags, timestamp, text) with the newest "
 			"records, which must form an unbroken run ending with the last one.  round_trip=0: three valid dumps (1, 3, 14 wrapped records) "
